@@ -91,6 +91,36 @@ func (propC10) Plan(tier string) (int, int) {
 	return 24000, 200
 }
 
+// ColdPlan: number of cold-start runs (plain build, -race build).
+func (propC10) ColdPlan(tier string) (int, int) {
+	if tier == "thorough" {
+		return 400, 80
+	}
+	return 32, 12
+}
+
+// genColdOp: operations whose first use builds package-level tables (gamma and
+// colour-conversion tables, clip tables, sharp-YUV tables, prefix-code tables).
+func genColdOp(r *RNG) Op {
+	op := GenStillOp(r, 4, 28, false)
+	if r.Pct(70) {
+		op.Kind = "enc"
+	}
+	if !op.Opt.Lossless {
+		if r.Pct(50) {
+			op.Opt.Preprocessing = r.Pick(2, 3)
+		}
+		if r.Pct(30) {
+			op.Opt.UseSharpYUV = true
+		}
+		if r.Pct(40) {
+			op.Img.Type = r.PickS("ycbcr", "gray", "nrgba")
+			op.Img.Alpha = "opaque"
+		}
+	}
+	return op
+}
+
 func genRowPipelineOp(r *RNG) Op {
 	var op Op
 	op.Kind = "enc"
@@ -112,6 +142,20 @@ func genRowPipelineOp(r *RNG) Op {
 func (propC10) Gen(seed uint64, tier string, idx int) any {
 	r := NewRNG(seed)
 	p := &C10Params{}
+	if strings.HasSuffix(tier, "+cold") {
+		// the first calls of a process, made concurrently by several clients
+		p.Workload = "C"
+		p.Sched = GenSched(r, 300, 1)
+		p.Sched.PoolHitPct = 0
+		if p.Sched.Policy == vsim.PolCanonical {
+			p.Sched.Policy = vsim.PolUniform
+		}
+		nc := r.Range(2, 5)
+		for c := 0; c < nc; c++ {
+			p.Clients = append(p.Clients, []Op{genColdOp(r)})
+		}
+		return p
+	}
 	if strings.HasSuffix(tier, "+race") {
 		// -race batch: small workloads (TSan cost is dominated by large allocations)
 		if r.Pct(60) {
@@ -124,14 +168,34 @@ func (propC10) Gen(seed uint64, tier string, idx int) any {
 			op.Img.W = r.Pick(1, 16, 17, 32, 33, 48)
 			op.Img.H = r.Pick(49, 50, 64, 65, 80)
 			p.Clients = [][]Op{{op}}
+		} else if r.Pct(30) {
+			// lossless parallel sections with many histogram tiles (remap enabled)
+			p.Workload = "B"
+			p.Sched = GenSched(r, 200, 2)
+			op := Op{Kind: "enc"}
+			op.Img = GenImgSpec(r, 96, 150, 1)
+			op.Img.Family = r.PickS("regions", "patch", "text", "pal", "flat")
+			op.Img.Type = "nrgba"
+			op.Opt = GenLosslessOpts(r, 0)
+			op.Opt.Quality = float32(r.Pick(75, 90, 100))
+			op.Opt.Method = r.Range(1, 4)
+			p.Clients = [][]Op{{op}}
 		} else {
 			p.Workload = "C"
 			p.Sched = GenSched(r, 400, 1)
+			if p.Sched.PoolHitPct < 90 {
+				p.Sched.PoolHitPct = 90
+			}
 			nc := r.Range(2, 4)
 			for c := 0; c < nc; c++ {
 				var ops []Op
-				for i, n := 0, r.Range(1, 2); i < n; i++ {
-					ops = append(ops, GenStillOp(r, 1, 24, false))
+				for i, n := 0, r.Range(1, 3); i < n; i++ {
+					switch {
+					case r.Pct(25):
+						ops = append(ops, genHostileOp(r))
+					default:
+						ops = append(ops, GenStillOp(r, 1, 24, false))
+					}
 				}
 				p.Clients = append(p.Clients, ops)
 			}
@@ -152,7 +216,32 @@ func (propC10) Gen(seed uint64, tier string, idx int) any {
 		op := Op{Kind: r.PickS("enc", "enc", "dec")}
 		op.Img = GenImgSpec(r, 64, 176, 1)
 		op.Opt = GenLosslessOpts(r, 5)
-		p.Clients = [][]Op{{op}}
+		ops := []Op{op}
+		switch b := r.Intn(20); {
+		case b < 8:
+			// many histogram tiles, some of them empty, remap enabled; twice in a row so the
+			// second encode runs on the pooled encoder's used scratch
+			op.Kind = "enc"
+			op.Img.W, op.Img.H = r.Range(128, 300), r.Range(128, 260)
+			op.Img.Family = r.PickS("regions", "patch", "text", "pal", "flat", "hgrad")
+			op.Img.Runs = true
+			op.Img.Type = "nrgba"
+			op.Opt.Quality = float32(r.Pick(90, 95, 100))
+			op.Opt.Method = r.Range(2, 4)
+			op2 := op
+			op2.Img.Seed = r.Next()
+			op2.Img.Family = r.PickS("regions", "patch", "text")
+			ops = []Op{op2, op}
+			p.Sched.PoolHitPct = 100
+		case b < 9:
+			// decode above the parallel threshold with fewer rows than workers
+			long := r.Pick(6700, 9000, 12500, 16383)
+			op = Op{Kind: "dec", Img: ImgSpec{Family: r.PickS("flat", "hgrad", "pal"), W: long, H: r.Range(100000/long+1, 100000/long+9), Seed: r.Next(), Colors: 5, Alpha: "opaque", Type: "nrgba"}, Opt: GenLosslessOpts(r, 0)}
+			op.Opt.Method, op.Opt.Quality = r.Range(0, 1), 25
+			p.Sched.Procs = r.Pick(8, 12, 16, 32)
+			ops = []Op{op}
+		}
+		p.Clients = [][]Op{ops}
 	case v < 90:
 		p.Workload = "C"
 		p.Sched = GenSched(r, 600, 1)
